@@ -170,7 +170,8 @@ def run_tlc(
     dfs_queue: bool = False,
 ) -> TlcResult:
     meta = os.path.join(workdir, "states_" + module)
-    jopts = [f"-Xmx{heap}", "-XX:+UseParallelGC", "-Xss512m"]
+    # TLC leaves a tlc-* directory per run in java.io.tmpdir: keep them inside the (removed) work directory
+    jopts = [f"-Xmx{heap}", "-XX:+UseParallelGC", "-Xss512m", f"-Djava.io.tmpdir={workdir}"]
     if dfs_queue:
         jopts.append("-Dtlc2.tool.queue.IStateQueue=StateDeque")
     cmd = ["java", *jopts, "-cp", f"{TLA_JAR}:{TLA_DEPS}", "tlc2.TLC"]
